@@ -11,7 +11,7 @@ def run(ctx):
         (1, C.gen_group),
     ]
     ctx.post_search = table_search
-    return C.run_check(ctx, "C04", gens, 170, 8000)
+    return C.run_check(ctx, "C04", gens, 120, 8000)
 
 
 def table_search(ctx, exe):
